@@ -56,6 +56,12 @@ func runC16(c0 *Ctx) {
 		c.pairing(fns, entry, 5)
 	})
 
+	c0.rule("C16.P2", "cache/lru.Cache: no method takes mtx again, itself or through a method it calls on the same cache, while it already holds it (sync.RWMutex is not reentrant: Lock inside Lock blocks for good, RLock inside Lock likewise - a size or length accessor called for a log line from inside Put or evict stops every user of the cache); "+lockOrderDoc, func() {
+		c := c0.onCache()
+		c.lruMethods()
+		c.lockOrderMin(0)
+	})
+
 	c0.rule("C16.L1", "cache/lru.Cache: the recency list ll and the running total size are accessed only under mtx (exclusive for mutation); helpers running under the caller's lock inherit it from all their call sites", func() {
 		c := c0.onCache()
 		c.lruMethods()
